@@ -7,12 +7,20 @@ result, engine-call trace and object-graph snapshot after EVERY op) and all
 oracles live in harness/vnetcase.py.  This check owns the oracle
 "executable WF on the real object graph + population accounting";
 failures of the other L2 oracles (owned by C01/C02/C05/C06/C07) are listed as
-notes in the evidence."""
-from .. import vnetcase
+notes in the evidence.
 
-LEAN_TARGETS = ["SqVerif.Props.C02"]
-PROPS_FILE = "SqVerif/Props/C02.lean"
-DRIVE_TARGETS = ["SqVerif.Drive.VNet"]
+Extra stage (harness/vnetx_cases.py): the client-visible methods the base
+model does not have -- client-made registers, remote_new_qubit_inreg,
+remote_get_virtual_ref, the NetQASM send / poll wrappers with their receive
+queues, the observers -- as the layer `VNetX` on top of `VNet` (theorems
+Props/C02X.lean, driver `vnetx`), run after the base check on its own programs."""
+from .. import core
+from .. import vnetcase
+from .. import vnetx_cases
+
+LEAN_TARGETS = ["SqVerif.Props.C02", "SqVerif.Props.C02X"]
+PROPS_FILE = ["SqVerif/Props/C02.lean", "SqVerif/Props/C02X.lean"]
+DRIVE_TARGETS = ["SqVerif.Drive.VNet", "SqVerif.Drive.VNetX"]
 TRUSTED = [
     "model VNet.lean hand-written from virtual.py / quantum.py (after the repairs F1 F2 F3); tied by differential execution "
     "after every op: result, engine-call trace, object-graph snapshot (this check)",
@@ -21,16 +29,33 @@ TRUSTED = [
     "copy from outside",
     "NumPy state-vector reference (complex128, tolerance 1e-8) and the conventions qubit 0 = leftmost factor, "
     "K = [[1,-i],[i,-1]]/sqrt2 (validated against the stabilizer code by C13/C14)",
+    "extended stage: model VNetX.lean hand-written from virtual.py:217-222, 320-321, 375-434, 475-670, 809-821, 1082-1103, "
+    "1675-1744, 1780-1787 (remote_new_qubit_inreg after the repair fix-inreg-stale-register); tied after every op incl. both "
+    "queue dictionaries; the empty client registers are kept beside the base network and count against its register budget "
+    "(theorem budget_step; the snapshot compares Python's numRegs / maxRegs / register table)",
+    "extended stage: queue oracle by object identity of the QubitNetQASM records in the real deques; a simulatedQubit object "
+    "built by a refused remote_new_qubit_inreg (it enters no list) is dropped from the creation-order registry",
 ]
 ASSUMPTIONS = [
     "operations are issued one after the other, each to completion (interleavings are C03/C04)",
     "stabilizer backend, noise off; two-qubit gates only between handles held by the same node (the API cannot express more)",
     "no send addressed to the issuing node (deadlocks: known finding under C04)",
+    "extended stage: a client deletes (remote_delete_register) only registers that hold no qubit; the deletion of a populated "
+    "register is carried out by the code, breaks the invariant (theorem delReg_populated_breaks_wf) and is only probed",
+    "extended stage: observers through handles whose simulated qubit left the network are compared for inertness only",
 ]
 
 
 def run(ctx):
-    return vnetcase.run_check(ctx, "C02")
+    rp = getattr(ctx, "replay", None)
+    if rp and vnetx_cases.is_x(rp):
+        core.scratch_repo()
+        res = core.Result()
+        return vnetx_cases.stage(ctx, res)
+    res = vnetcase.run_check(ctx, "C02")
+    if not rp:
+        vnetx_cases.stage(ctx, res)
+    return res
 
 
 def search(ctx, res, broken):
